@@ -755,7 +755,9 @@ def handle (req : Json) : R Json := do
   let v := v1.and v2
   let mo := model inp
   let dS := firstDiff toksS mo.toksS 0
-  let dD := firstDiff toksD mo.toksD 0
+  -- a front end that only writes the returned-string form sends that text for both forms
+  let single ← boolFD req "single_form" false
+  let dD := firstDiff toksD (if single then mo.toksS else mo.toksD) 0
   let mread := match mo.reads with | (_, r) :: _ => r | [] => .error .other
   let badRead := reads.find? (fun nr => !(readSame nr.2 mread))
   let what : Option String :=
